@@ -4,7 +4,7 @@ from ref import pools, whitelist
 
 ID = "C16"
 LEVEL = "exploration"
-CONFIGS = {"quick": ["san"], "thorough": ["san", "san_nv", "mx_i64"]}
+CONFIGS = {"quick": ["san", "mx_i64"], "thorough": ["san", "san_nv", "mx_i64"]}
 RULE = ("key counts 0..255 (every count <= 8 and 127/128/254/255, others sampled), every signer index for small n; honest signatures, signatures "
         "forged from public data only (the empty-ring string), reference-prover rings with small chosen scalars and their s+n re-encodings, single-bit "
         "flips, scalars := 0 / n, length +-1, count byte vs length, key lists permuted / one key replaced; zero and >= n secrets for the signer; every "
@@ -196,7 +196,7 @@ def wl_parser(ctx, config):
     if pr is not None: ctx.check(pr.ret == 0, "wl_parse:empty_accepted", "", config)
 
 def run(ctx):
-    for config in ctx.configs:
+    for config in ctx.cfgs():
         wl_honest(ctx, config)
         wl_sign_refusals(ctx, config)
         wl_forged(ctx, config)
